@@ -49,7 +49,10 @@ thread_local! {
     static WIDENINGS: RefCell<u64> = RefCell::new(0);
     static WIDENED: RefCell<Vec<u64>> = RefCell::new(vec![]);
     static PI_CALLS: RefCell<u64> = RefCell::new(0);
+    /// union of the dependencies of every value any operation (arithmetic, function, comparison, conversion) was applied to
+    static TOUCHED: RefCell<u128> = RefCell::new(0);
 }
+fn touch(d: u128) { if d != 0 { TOUCHED.with(|t| *t.borrow_mut() |= d); } }
 
 #[derive(Clone, Debug)]
 pub struct Tr {
@@ -57,23 +60,25 @@ pub struct Tr {
     pub deps: u128,
 }
 impl Tr {
-    fn op_add(a: &Tr, b: &Tr) -> Tr { Tr { v: a.v + b.v, deps: a.deps | b.deps } }
-    fn op_sub(a: &Tr, b: &Tr) -> Tr { Tr { v: a.v - b.v, deps: a.deps | b.deps } }
-    fn op_mul(a: &Tr, b: &Tr) -> Tr { Tr { v: a.v * b.v, deps: a.deps | b.deps } }
-    fn op_div(a: &Tr, b: &Tr) -> Tr { Tr { v: a.v / b.v, deps: a.deps | b.deps } }
-    fn op_neg(a: &Tr) -> Tr { Tr { v: -a.v, deps: a.deps } }
-    fn un(&self, v: f64) -> Tr { Tr { v, deps: self.deps } }
+    fn op_add(a: &Tr, b: &Tr) -> Tr { touch(a.deps | b.deps); Tr { v: a.v + b.v, deps: a.deps | b.deps } }
+    fn op_sub(a: &Tr, b: &Tr) -> Tr { touch(a.deps | b.deps); Tr { v: a.v - b.v, deps: a.deps | b.deps } }
+    fn op_mul(a: &Tr, b: &Tr) -> Tr { touch(a.deps | b.deps); Tr { v: a.v * b.v, deps: a.deps | b.deps } }
+    fn op_div(a: &Tr, b: &Tr) -> Tr { touch(a.deps | b.deps); Tr { v: a.v / b.v, deps: a.deps | b.deps } }
+    fn op_neg(a: &Tr) -> Tr { touch(a.deps); Tr { v: -a.v, deps: a.deps } }
+    fn un(&self, v: f64) -> Tr { touch(self.deps); Tr { v, deps: self.deps } }
 }
 impl_ops!(Tr);
 impl PartialEq for Tr {
     fn eq(&self, o: &Tr) -> bool {
         COMPARISONS.with(|c| c.borrow_mut().push(self.deps | o.deps));
+        touch(self.deps | o.deps);
         self.v == o.v
     }
 }
 impl PartialOrd for Tr {
     fn partial_cmp(&self, o: &Tr) -> Option<Ordering> {
         COMPARISONS.with(|c| c.borrow_mut().push(self.deps | o.deps));
+        touch(self.deps | o.deps);
         self.v.partial_cmp(&o.v)
     }
 }
@@ -91,7 +96,7 @@ impl MomTropFloat for Tr {
     fn sqrt(&self) -> Self { self.un(self.v.sqrt()) }
     fn abs(&self) -> Self { self.un(self.v.abs()) }
     fn inv(&self) -> Self { self.un(1.0 / self.v) }
-    fn powf(&self, p: &Self) -> Self { Tr { v: self.v.powf(p.v), deps: self.deps | p.deps } }
+    fn powf(&self, p: &Self) -> Self { touch(self.deps | p.deps); Tr { v: self.v.powf(p.v), deps: self.deps | p.deps } }
     fn from_isize(&self, value: isize) -> Self { Tr { v: value as f64, deps: 0 } }
     fn from_f64(&self, value: f64) -> Self {
         WIDENINGS.with(|w| *w.borrow_mut() += 1);
@@ -100,6 +105,7 @@ impl MomTropFloat for Tr {
     }
     fn to_f64(&self) -> f64 {
         NARROWINGS.with(|n| n.borrow_mut().push((self.deps, f2b(self.v))));
+        touch(self.deps);
         self.v
     }
 }
@@ -163,15 +169,17 @@ fn op_sample_track(j: &Value) -> Value {
         WIDENINGS.with(|c| *c.borrow_mut() = 0);
         WIDENED.with(|c| c.borrow_mut().clear());
         PI_CALLS.with(|c| *c.borrow_mut() = 0);
+        TOUCHED.with(|c| *c.borrow_mut() = 0);
         let gen = SampleGenerator::<D>::verif_from_parts(get_sig(j), table);
         let r = gen.generate_sample_from_x_space_point(&xs, edge_data, &st, &logger);
+        let touched = TOUCHED.with(|c| *c.borrow());
         let cmp: Vec<Vec<usize>> = COMPARISONS.with(|c| c.borrow().iter().map(|&d| bits_of(d)).collect());
         let narrow: Vec<Value> = NARROWINGS.with(|c| c.borrow().iter().map(|&(d, b)| json!({"deps": bits_of(d), "value": b})).collect());
         let widen = WIDENINGS.with(|c| *c.borrow());
         let widened: Vec<u64> = WIDENED.with(|c| { let mut v = c.borrow().clone(); v.sort(); v.dedup(); v });
         let pi_calls = PI_CALLS.with(|c| *c.borrow());
         let mut out = json!({
-            "widened_values": widened, "pi_calls": pi_calls,
+            "widened_values": widened, "pi_calls": pi_calls, "touched": bits_of(touched),
             "dimension": gen.get_dimension(),
             "x_deps": xf.iter().map(|t| bits_of(t.deps)).collect::<Vec<_>>(),
             "x": xf.iter().map(|t| f2b(t.v)).collect::<Vec<_>>(),
@@ -441,6 +449,8 @@ fn op_vec_tag(j: &Value) -> Value {
             "dot" => vec![va().dot(&vb())],
             "squared" => vec![va().squared()],
             "new" => va().new().get_elements().to_vec(),
+            // every component with its own tag (100 + i): `new()` is componentwise `zero()` of each component
+            "new_i" => Vector::<Lt, D>::from_vec(a.iter().enumerate().map(|(i, t)| Lt { v: t.v, tag: 100 + i as u32 }).collect()).new().get_elements().to_vec(),
             other => panic!("harness: unknown vec_tag fn {other}"),
         };
         json!({"r": r.iter().map(|t| f2b(t.v)).collect::<Vec<_>>(), "tags": r.iter().map(|t| t.tag).collect::<Vec<_>>()})
